@@ -97,9 +97,16 @@ def check_slogdet(T, tag, A, M, call):
         T.eq(f"{tag}:|sign|==1", np.array(abs(sg)), np.array(1.0), dtype=False)
 
 
-def case_tree(T, tree, algs):
+def case_tree(T, tree, algs, assume_nonsingular=False):
     A, R = build(T, tree)
     M = R.a
+    if assume_nonsingular:
+        # the property is about non-singular operators: paths on which a structural zero makes det(M) = 0 (zero pivots) are outside
+        d = det_ref(T, M)
+        if T.sym:
+            from symx.core import C
+            d = C(d)
+            T.assume((d * d.conjugate()).real > 0)
     for an in algs:
         if an == "default":
             check_slogdet(T, "slogdet()", A, M, lambda: cola.linalg.slogdet(A))
@@ -221,7 +228,10 @@ def cases(tier, seed):
     out = []
 
     def add(tree, algs=("default", ), tag="", opts=None):
-        c = (f"{tag}{tree_name(tree)}", case_tree, dict(tree=tree, algs=list(algs)))
+        kw = dict(tree=tree, algs=list(algs))
+        if tag == "r:":
+            kw["assume_nonsingular"] = True
+        c = (f"{tag}{tree_name(tree)}", case_tree, kw)
         out.append(c + ((opts, ) if opts else ()))
 
     for dt in (F8, C16):
